@@ -61,6 +61,8 @@ def scenarios(tier, seed):
                         rest = [x for x in cand if x != virt]
                         if rest and k % 10 == 0:
                             virt2 = rest[0]
+                        if k % 20 == 0 or (not rest and k % 10 == 0):
+                            virt2 = virt   # two entries of the list on the SAME variable: the likelihoods multiply
                 if tier == "quick" and ci > 0 and (k % 3):
                     continue
                 nh = 2 if tier == "quick" else 6
